@@ -103,7 +103,7 @@ class UIRec(object):
 
 # ------------------------------------------------------------------ generator: run sets
 def gen_samples(rng):
-    kind = rng.choice(['none', 'none', 'one-half', 'pair-tie', 'ints', 'floats', 'big', 'many'] + (['nonfinite'] if rng.random() < 0.04 else []))
+    kind = rng.choice(['none', 'none', 'one-half', 'pair-tie', 'ints', 'floats', 'big', 'many', 'offset'] + (['nonfinite'] if rng.random() < 0.04 else []))
     if kind == 'nonfinite':
         # a harness that printed 1e999ms / nan: the total of a data point is inf, -inf or nan
         vals = [rng.uniform(0, 500) for _ in range(rng.randint(0, 3))] + [rng.choice([float('inf'), float('nan'), float('-inf')])
@@ -112,6 +112,10 @@ def gen_samples(rng):
         return kind, vals
     if kind == 'none':
         return kind, []
+    if kind == 'offset':
+        # totals that are large against their jitter (1e6 ms with a spread of some 10 microseconds): cancellation
+        base = rng.choice([1e6, 3.6e6, 1e7, 123456.0])
+        return kind, [base + rng.uniform(-0.05, 0.05) for _ in range(rng.randint(2, 8))]
     if kind == 'one-half':
         return kind, [rng.randint(0, 2000) + 0.5]
     if kind == 'pair-tie':
@@ -690,6 +694,16 @@ def report_malformed(ck, inp, sent, level):
     return [e for e in sent if not e.get('malformed')]
 
 
+def std_ok(std_impl, var_exact, max_abs, n):
+    """the reported standard deviation against the exact population variance: 0.1 % relative, plus what the
+    doubles of that magnitude cannot resolve (64 ulp of the largest sample, times sqrt(n))"""
+    if std_impl is None:
+        return False
+    exact = math.sqrt(float(var_exact)) if var_exact > 0 else 0.0
+    floor = 64 * 2.0 ** -52 * max(float(max_abs), 1e-300) * math.sqrt(max(n, 1))
+    return abs(float(std_impl) - exact) <= 1e-3 * exact + floor
+
+
 def close(a, b, scale):
     return abs(Fraction(a) - Fraction(b)) <= Fraction(1, 10 ** 9) * max(1, scale)
 
@@ -711,7 +725,8 @@ def cs_entry_matches(impl, model):
     m2 = lib.unfrac(model['m2'])
     if n == 0:
         return impl['std'] == 0
-    return abs(Fraction(impl['std']) ** 2 * n - m2) <= Fraction(1, 10 ** 6) * max(1, m2)
+    max_abs = max(abs(lib.unfrac(model['min'])), abs(lib.unfrac(model['max'])))
+    return std_ok(impl['std'], m2 / n, max_abs, n)
 
 
 def check_codespeed(ck, cases, server=None):
@@ -811,7 +826,7 @@ def oracle_cs(ck, case, o, inp):
             bad['min'] = (e['min'], float(min(smp)))
         if e['max'] is None or Fraction(e['max']) != max(smp):
             bad['max'] = (e['max'], float(max(smp)))
-        if e['std'] is None or abs(Fraction(e['std']) ** 2 - var) > Fraction(1, 10 ** 6) * max(1, var):
+        if not std_ok(e['std'], var, max(abs(x) for x in smp), n):
             bad['std_dev'] = (e['std'], math.sqrt(float(var)))
         if bad:
             fail('codespeed_values', {'run': e['run'], 'wrong': bad, 'samples': spec['samples'][:8]},
@@ -1025,7 +1040,7 @@ def check_cs_exec_sessions(ck, cases):
                     var = sum((x - mean) ** 2 for x in smp) / len(smp)
                     if e['value'] is None or e['value'] == -1 or not close(e['value'], mean, max(abs(mean), 1)) or \
                             Fraction(e['min']) != min(smp) or Fraction(e['max']) != max(smp) or \
-                            abs(Fraction(e['std']) ** 2 - var) > Fraction(1, 10 ** 6) * max(1, var):
+                            not std_ok(e['std'], var, max(abs(x) for x in smp), len(smp)):
                         ck.oracle_fail('codespeed_values', inp, {'run': list(k), 'sent': e, 'samples': [float(x) for x in smp][:12]},
                                        signature={'clause': 'codespeed_values', 'level': 'executor-session'})
             # ---- model
